@@ -221,7 +221,8 @@ impl Polynomial<Cmplx> {
         if sgn >= 0.0 { sgn = 1.0; } else { sgn = -1.0; }
         let q: Cmplx = - 0.5 * ( b + discriminant.sqrt() * sgn );
         roots[0] = q / a;
-        roots[1] = c / q;
+        // q vanishes only when b = c = 0: both roots are then zero (c / q would be 0/0)
+        roots[1] = if q == Cmplx::zero() { Cmplx::zero() } else { c / q };
         roots
     
     }
